@@ -154,6 +154,51 @@ func c16Worker(args []string) int {
 				fmt.Printf("DIFF round %d: the shared resolver's Hints map was modified (%d entries, had 1)\n", round, len(hints))
 			}
 		}
+		// repeated decoration of the same parsed files through one shared identifier resolver, some of which
+		// the resolver must refuse: every repetition answers like the call made alone with a fresh resolver
+		{
+			inputs := append(c16Sources(3),
+				[]byte("package q\n\nimport (\n\t\"fmt\"\n\t. \"os\"\n)\n\nvar _ = fmt.Sprint(Args)\n"),
+				[]byte("package q\n\nimport (\n\t\"fmt\"\n\t\"a/x\"\n\t\"b/x\"\n)\n\nvar _ = fmt.Sprint(x.V)\n"),
+				[]byte("package q\n\nimport (\n\t\"fmt\"\n\t\"unknown.example/pkg\"\n\t\"os\"\n)\n\nvar _ = fmt.Sprint(pkg.V, os.Args)\n"))
+			names := map[string]string{"fmt": "fmt", "strings": "strings", "os": "os", "a/x": "x", "b/x": "x"}
+			outcome := func(af *ast.File, fset *token.FileSet, dr resolver.DecoratorResolver) string {
+				df, err := decorator.NewDecoratorWithImports(fset, "example.com/q", dr).DecorateFile(af)
+				if err != nil {
+					return "error: " + err.Error()
+				}
+				var paths []string
+				dst.Inspect(df, func(n dst.Node) bool {
+					if id, ok := n.(*dst.Ident); ok && id.Path != "" {
+						paths = append(paths, id.Name+"@"+id.Path)
+					}
+					return true
+				})
+				return strings.Join(paths, ",")
+			}
+			shared := goast.WithResolver(simple.New(names))
+			var rwg sync.WaitGroup
+			for i := range inputs {
+				rwg.Add(1)
+				go func(i int) {
+					defer rwg.Done()
+					fset := token.NewFileSet()
+					af, err := parser.ParseFile(fset, "", inputs[i], parser.ParseComments)
+					if err != nil {
+						fmt.Println("ERR repeat-same-ast: ", err)
+						return
+					}
+					want := outcome(af, fset, goast.WithResolver(simple.New(names)))
+					for k := 0; k < 4; k++ {
+						if got := outcome(af, fset, shared); got != want {
+							fmt.Printf("DIFF repeat-same-ast input %d call %d: shared resolver answers %q, alone %q\n", i, k+1, got, want)
+							return
+						}
+					}
+				}(i)
+			}
+			rwg.Wait()
+		}
 		// repeated calls on equal inputs: identical bytes whatever the map iteration order
 		src := []byte("package p\n\nimport (\n\t\"z/b\"\n\t\"a/b\"\n\t\"m.io/b\"\n\t\"c/b\"\n)\n\nvar _ = 1\n")
 		first := ""
@@ -503,6 +548,7 @@ func checkC16(c *Ctx) {
 	}
 	c.Eval("stress: 40 rounds x 16 goroutines x 3 decorate+restore calls, shared goast resolver (New / WithResolver) and shared guess resolver", true)
 	c.Eval("repeat: 60 identical import-managed restores", true)
+	c.Eval("repeat: 6 parsed files (3 the resolver must refuse) decorated 4 times each through one shared goast resolver", true)
 	c.Eval("repeat: 15 three-file directories x 12 identical ParseDir+Fprint runs, concurrently", true)
 	if strings.Contains(se, "DATA RACE") {
 		rep := se[strings.Index(se, "WARNING: DATA RACE"):]
